@@ -275,38 +275,46 @@ def run_ks(prop, cfg, tier, seed, log, replay_ids=None):
                    VERIF_RUNDIR=rundir, VERIF_ROOT=ROOT, VERIF_REPO=REPO,
                    GOMEMLIMIT=cfg.get("gomemlimit", "6GiB"))
         gof = open(os.path.join(rundir, "go.%d.txt" % s), "w")
-        procs.append((s, subprocess.Popen([hbin], stdout=gof, stderr=subprocess.PIPE, env=env, cwd=rundir), gof))
+        goe = open(os.path.join(rundir, "go.%d.err" % s), "w")   # a file, never a pipe: a full pipe would block the harness
+        procs.append((s, subprocess.Popen([hbin], stdout=gof, stderr=goe, env=env, cwd=rundir), gof, goe))
     go_d, lean_d = {}, {}
     t_end = time.time() + timeout
-    for s, p, gof in procs:
+    def tail_of(path, n=3000):
         try:
-            _, err = p.communicate(timeout=max(1, t_end - time.time()))
+            with open(path, "rb") as f:
+                f.seek(0, 2); size = f.tell(); f.seek(max(0, size - n))
+                return f.read().decode(errors="replace")
+        except OSError:
+            return ""
+    for s, p, gof, goe in procs:
+        try:
+            p.wait(timeout=max(1, t_end - time.time()))
         except subprocess.TimeoutExpired:
-            p.kill(); _, err = p.communicate()
+            p.kill(); p.wait()
             res["ok"] = False
-            res["harness_error"] = "harness timed out after %ds" % timeout
-        gof.close()
+            res["harness_error"] = "harness timed out after %ds: %s" % (timeout, tail_of(goe.name, 1000))
+        gof.close(); goe.close()
         if p.returncode not in (0, None) and not res["harness_error"]:
             res["ok"] = False
-            res["harness_error"] = "harness exited %s: %s" % (p.returncode, (err or b"").decode(errors="replace")[-3000:])
+            res["harness_error"] = "harness exited %s: %s" % (p.returncode, tail_of(goe.name))
     if res["harness_error"]:
         return res
     dprocs = []
     for s in range(shards):
         gi = open(os.path.join(rundir, "go.%d.txt" % s))
         lo = open(os.path.join(rundir, "lean.%d.txt" % s), "w")
-        dprocs.append((s, subprocess.Popen([driver], stdin=gi, stdout=lo,
-                                           stderr=subprocess.PIPE), gi, lo))
-    for s, p, gi, lo in dprocs:
+        le = open(os.path.join(rundir, "lean.%d.err" % s), "w")
+        dprocs.append((s, subprocess.Popen([driver], stdin=gi, stdout=lo, stderr=le), gi, lo, le))
+    for s, p, gi, lo, le in dprocs:
         try:
-            _, err = p.communicate(timeout=timeout)
+            p.wait(timeout=timeout)
         except subprocess.TimeoutExpired:
-            p.kill(); _, err = p.communicate()
+            p.kill(); p.wait()
             res["ok"] = False; res["harness_error"] = "lean driver timed out"
-        gi.close(); lo.close()
+        gi.close(); lo.close(); le.close()
         if p.returncode != 0 and not res["harness_error"]:
             res["ok"] = False
-            res["harness_error"] = "lean driver exited %s: %s" % (p.returncode, (err or b"").decode(errors="replace")[-2000:])
+            res["harness_error"] = "lean driver exited %s: %s" % (p.returncode, tail_of(le.name, 2000))
     if res["harness_error"]:
         return res
     for s in range(shards):
